@@ -4,9 +4,10 @@
    compare_exchange_weak loop; local flush).  `reachable O es s` = the event list es is an execution of the model from
    its initial state ending in s: ALL interleavings, ALL programs, ANY number of threads, all spurious failures.
    `hist O s` = the history of invocation / linearisation / response marks of that execution. *)
-Require Import PV.Base.Prelude PV.Base.F64 PV.Model.Conc PV.Model.AtomicConc PV.Proofs.AtomicConcFacts PV.Spec.SpecC01 PV.Spec.SpecC11 PV.Proofs.AtomicSpecFacts PV.Proofs.AtomicSpecFull.
+Require Import PV.Base.Prelude PV.Base.F64 PV.Model.Conc PV.Model.AtomicConc PV.Proofs.AtomicConcFacts PV.Spec.SpecC01 PV.Spec.SpecC11 PV.Proofs.AtomicSpecFacts PV.Proofs.AtomicSpecFull PV.Proofs.AtomicSpecFloat.
 From Coq Require Import Permutation Floats.
 Require PV.Model.VecConc PV.Proofs.VecConcBase PV.Proofs.VecConcFacts PV.Props.C10.
+Require PV.Proofs.C01VecSpec.
 Open Scope N_scope.
 
 (* ---- the executable validator and the step relation are the same thing *)
@@ -152,8 +153,8 @@ Qed.
    validated trace has an order of ALL its calls that replays on the SPEC's sequential counter to the returned values and
    respects real time; the search is complete for such an order (W_search, V_W); (A) and (B) are read off that order
    (AtomicSpecFull.prefix_sum_split, clauseA_int, clauseB_int, clauseB_float; f2bits_inj for the float reads).
-   VECTOR PART: spec_c01_vec on validated `C vec` traces is NOT proved (it would need the same simulation over C10's model);
-   what is relied on are C10's theorems c01_vec_child_* above. *)
+   VECTOR PART: spec_c01_vec on validated `C vec` traces is proved too: c01_vec_spec_of_validated (module VecSpec below;
+   Proofs/C01VecSpec.v, built on C10's relaxed_spec_of_validated_partial3 - nothing about the vector model is re-proved). *)
 Theorem c01_search_of_validated_int es :
   trace_ok IntOps es = true -> calls_in counter_call es = true -> spec_c01_core false es = true.
 Proof. exact (c01_core_of_validated_int es). Qed.
@@ -260,6 +261,23 @@ Theorem c01_vec_child_validated_traces_are_model_paths nl nth es :
 Proof. exact (PV.Props.C10.c10_validated_traces_are_model_paths nl nth es). Qed.
 End VecChild.
 
+(* counter-vector part: validated `C vec` trace inside the executable domain => spec_c01_vec.  [dom_c01_vec nth es] = C10's
+   [in_domain nth es] (every event belongs to one of the nth harness threads) && C10's [incs_ok] (increments are distinct powers of
+   two below 2^63 - the generator's pool).  Built on C10's relaxed_spec_of_validated_partial3: no duplicate keys, "shown" (every set
+   bit of a collected value is an update of exactly that key invoked before the collection returned) and no-lost-update give "the value
+   is the completed increments plus a subset of the overlapping ones". *)
+Module VecSpec.
+Import PV.Model.VecConc.
+Theorem c01_vec_spec_of_validated nl nth es :
+  PV.Model.VecConc.vcheck nl nth es = true -> PV.Proofs.C01VecSpec.dom_c01_vec nth es = true -> spec_c01_vec es = true.
+Proof. exact (PV.Proofs.C01VecSpec.c01_vec_spec_of_validated_full nl nth es). Qed.
+(* a real trace of the implementation (C vec 1 | withinc a 1, withinc b 2, vcollect | withinc a 4, vcollect; both threads race for the new label a) *)
+Definition vec_trace : list event := [ECall 0 (CWithInc [[97]] 1); ELock 0 0 LRead true; EUnlock 0 0 LRead; ECall 1 (CWithInc [[97]] 4); ELock 1 0 LRead true; EUnlock 1 0 LRead; ELock 1 0 LWrite true; EUnlock 1 0 LWrite; EAt 1 1 KFetchAdd Relaxed None 0 4 true; ERet 1 RUnit; ELock 0 0 LWrite true; EUnlock 0 0 LWrite; EAt 0 1 KFetchAdd Relaxed None 4 5 true; ERet 0 RUnit; ECall 1 CVCollect; ELock 1 0 LRead true; ECall 0 (CWithInc [[98]] 2); ELock 0 0 LRead true; EUnlock 0 0 LRead; ELock 0 0 LWrite false; EAt 1 1 KLoad Relaxed None 5 5 true; EUnlock 1 0 LRead; ERet 1 (RColl [([[97]],5)]); ELock 0 0 LWrite true; EUnlock 0 0 LWrite; EAt 0 2 KFetchAdd Relaxed None 0 2 true; ERet 0 RUnit; ECall 0 CVCollect; ELock 0 0 LRead true; EAt 0 1 KLoad Relaxed None 5 5 true; EAt 0 2 KLoad Relaxed None 2 2 true; EUnlock 0 0 LRead; ERet 0 (RColl [([[97]],5);([[98]],2)])].
+Example c01_vec_trace_by_theorem : PV.Proofs.C01VecSpec.dom_c01_vec 2 vec_trace = true /\ spec_c01_vec vec_trace = true.
+Proof. split; [vm_compute; reflexivity|]. apply (c01_vec_spec_of_validated 1 2); vm_compute; reflexivity. Qed.
+Check c01_vec_spec_of_validated : forall nl nth es, PV.Model.VecConc.vcheck nl nth es = true -> PV.Proofs.C01VecSpec.dom_c01_vec nth es = true -> spec_c01_vec es = true.
+End VecSpec.
+
 (* the vector spec on markers: two threads race for the same new label value, both increments show in the final collections;
    the outcome of a vector that dropped the first child (only thread 1's increment visible) is rejected *)
 Definition vec_markers (v0 v1 : N) : list event :=
@@ -293,6 +311,19 @@ Example c01_int_trace_spec_by_theorem : dom01_int int_trace = true /\ spec_c01 f
 Proof. split; [vm_compute; reflexivity|]. apply c01_spec_of_validated_int; [exact (proj1 c01_int_trace_valid)|vm_compute; reflexivity]. Qed.
 Example c01_window_trace_float_by_theorem : dom01_float window_trace = true /\ spec_c01_B true window_trace = true.
 Proof. split; [vm_compute; reflexivity|]. apply c01_spec_of_validated_float_partial; [exact c01_window_trace_valid|vm_compute; reflexivity]. Qed.
+
+(* FULL float statement (Proofs/AtomicSpecFloat.v): on the executable domain [dom01_float_full] - counter calls, finite non-negative
+   increments whose decoded values q*2^-1074 are all multiples of 2^lo with sum below 2^(lo+53) and below 2^2098, so that every partial sum
+   is exact (Flocq Bplus_correct) - a validated trace satisfies the WHOLE executable spec, clause (A) (read = sum of a subset of the
+   increments containing every completed one) included.  No bound on the number of calls.  Outside the domain: non-finite amounts and
+   amounts that do not fit one 53-bit window (1.0 with 1e-17, 0.1, ...): there the _partial theorem above applies. *)
+Theorem c01_spec_of_validated_float es : trace_ok FloatOps es = true -> dom01_float_full es = true -> spec_c01 true es = true.
+Proof. exact (c01_spec_of_validated_float_full es). Qed.
+Example c01_window_trace_float_full_by_theorem : dom01_float_full window_trace = true /\ spec_c01 true window_trace = true.
+Proof. split; [vm_compute; reflexivity|]. apply c01_spec_of_validated_float; [exact c01_window_trace_valid|vm_compute; reflexivity]. Qed.
+Example c01_tiny_trace_in_domain : dom01_float_full tiny_trace = true.
+Proof. vm_compute; reflexivity. Qed.
+Check c01_spec_of_validated_float : forall es, trace_ok FloatOps es = true -> dom01_float_full es = true -> spec_c01 true es = true.
 Check c01_spec_of_validated_int : forall es, trace_ok IntOps es = true -> dom01_int es = true -> spec_c01 false es = true.
 Check c01_search_of_validated_int : forall es, trace_ok IntOps es = true -> calls_in counter_call es = true -> spec_c01_core false es = true.
 Check c01_search_of_validated_float : forall es, trace_ok FloatOps es = true -> calls_in counter_call es = true -> spec_c01_core true es = true.
@@ -362,3 +393,8 @@ Print Assumptions c01_spec_from_clauses3.
 Print Assumptions c01_f2bits_injective.
 Print Assumptions c01_int_trace_spec_by_theorem.
 Print Assumptions c01_window_trace_float_by_theorem.
+Print Assumptions c01_spec_of_validated_float.
+Print Assumptions c01_window_trace_float_full_by_theorem.
+Print Assumptions c01_tiny_trace_in_domain.
+Print Assumptions VecSpec.c01_vec_spec_of_validated.
+Print Assumptions VecSpec.c01_vec_trace_by_theorem.
